@@ -9,7 +9,7 @@ from harness import parse_common as PC
 from harness.driver import Driver, DriverError
 
 PID = 'C01'
-THEOREMS = ['PyDBML.C02.document_faithful_each_variant', 'PyDBML.C02.document_faithful_variants', 'PyDBML.C02.enums_tables_spelling_inert', 'PyDBML.C02.tables_spelling_inert', 'PyDBML.C02.bodyEnd_note', 'PyDBML.C02.enumRule_okPN', 'PyDBML.C02.projectRule_okP', 'PyDBML.C02.document_faithful_gaps', 'PyDBML.C02.parseDoc_elems_gaps_end', 'PyDBML.C02.parseDoc_elems_gaps', 'PyDBML.C02.cBefore_nls_comment',
+THEOREMS = ['PyDBML.C02.kwTable_facts', 'PyDBML.C02.kwEnum_facts', 'PyDBML.C02.kwRef_facts', 'PyDBML.C02.kwGroup_facts', 'PyDBML.C02.kwProject_facts', 'PyDBML.C02.kwNote_facts', 'PyDBML.C02.spells_bare', 'PyDBML.C02.spells_quoted', 'PyDBML.C02.document_faithful_each_variant', 'PyDBML.C02.document_faithful_variants', 'PyDBML.C02.enums_tables_spelling_inert', 'PyDBML.C02.tables_spelling_inert', 'PyDBML.C02.bodyEnd_note', 'PyDBML.C02.enumRule_okPN', 'PyDBML.C02.projectRule_okP', 'PyDBML.C02.document_faithful_gaps', 'PyDBML.C02.parseDoc_elems_gaps_end', 'PyDBML.C02.parseDoc_elems_gaps', 'PyDBML.C02.cBefore_nls_comment',
             'PyDBML.C02.parseDoc_elems', 'PyDBML.C02.DocSpec.build', 'PyDBML.C02.enumRule_okP', 'PyDBML.C02.stickyNoteRule_okP', 'PyDBML.C02.tableGroupRule_okP', 'PyDBML.C02.ColForm.parseDoc_tables_refs', 'PyDBML.C02.ColForm.build_tables_refs', 'PyDBML.C02.ColForm.buildRef_ok', 'PyDBML.C02.tableColumn_settings', 'PyDBML.C02.ColForm.parseDoc_table', 'PyDBML.C02.ColForm.build_table', 'PyDBML.C02.parseDoc_tables_refs', 'PyDBML.C02.build_tables_refs', 'PyDBML.C02.buildRef_plain', 'PyDBML.C02.parseDoc_tables', 'PyDBML.C02.parseDoc_enum', 'PyDBML.C02.build_enum', 'PyDBML.C02.build_tables', 'PyDBML.C02.many_tables', 'PyDBML.C02.parseDoc_table', 'PyDBML.C02.parseDoc_sticky', 'PyDBML.C02.build_table']
 MODULES = ['PyDBMLProofs.Props.C02Sticky', 'PyDBMLProofs.Props.C02Table', 'PyDBMLProofs.Props.C02Tables', 'PyDBMLProofs.Props.C02Enum', 'PyDBMLProofs.Props.C02Refs', 'PyDBMLProofs.Props.C02Form', 'PyDBMLProofs.Props.C02Flags', 'PyDBMLProofs.Props.C02Comment', 'PyDBMLProofs.Props.C02FormTables', 'PyDBMLProofs.Props.C02FormRefs', 'PyDBMLProofs.Props.C02FlagsTables', 'PyDBMLProofs.Props.C02Doc', 'PyDBMLProofs.Props.C02DocMore', 'PyDBMLProofs.Props.C02Group', 'PyDBMLProofs.Props.C02Inline', 'PyDBMLProofs.Props.C02Project', 'PyDBMLProofs.Props.C02EnumNote', 'PyDBMLProofs.Props.C02TableNote', 'PyDBMLProofs.Props.C02Document', 'PyDBMLProofs.Props.C01Layout', 'PyDBMLProofs.Props.C01LayoutEnd',
            'PyDBMLProofs.Props.C01LayoutDoc', 'PyDBMLProofs.Props.C01Case']
